@@ -981,7 +981,7 @@ fn main() {
     let harness_errors: Mutex<Vec<String>> = Mutex::new(vec![]);
     // the instruction-level batch runs alongside everything else (it is slow and mostly waits on
     // the interpreter)
-    let miri_n = simcore::env_usize("VERIF_C08_MIRI", if cmd == "selftest" { 0 } else if tier == "thorough" { 1200 } else { 8 });
+    let miri_n = simcore::env_usize("VERIF_C08_MIRI", if cmd == "selftest" { 0 } else if tier == "thorough" { 2000 } else { 8 });
     let miri_jobs = if tier == "thorough" { cfg.jobs } else { 8 };
     let miri_out: Mutex<Option<(Value, Vec<(String, String, Value)>, Vec<String>)>> = Mutex::new(None);
     let (det_checked, det_degraded, det_diff, stage_json, stage_violations) = std::thread::scope(|outer| {
